@@ -19,6 +19,7 @@ func checkC06(p *Prog, res *Result, tier string) {
 	res.rule("C06-R2", "range-style reads load the committed revision before the scan; header and default read revision derive from that load only", 6)
 	res.rule("C06-R3", "unknown-outcome writes are queued before commit (C09-R1)", 2)
 	res.rule("C06-R5", "listed and streamed data are not overwritten after they were handed over (C05-R9)", 2)
+	res.rule("C06-R6", "a key vanishes from reads only with a DELETE event: compaction keeps the deletion marker until the versions it hides are gone (C07-R3/R4), expiry touches event keys only and only marks older than the TTL (C17-R1/R2)", 8)
 	res.rule("C06-R4", "the listed state is the complete snapshot: partition borders contiguous and realigned, retried attempts start empty, a failed partition fails the read (C13-R5/R6/R8)", 5)
 
 	// ---- R1 ----
@@ -169,6 +170,23 @@ func checkC06(p *Prog, res *Result, tier string) {
 	for _, o := range sub13.Obls {
 		if o.Rule == "C13-R5" || o.Rule == "C13-R6" || o.Rule == "C13-R8" {
 			res.add("C06-R4", o.Rule+" "+o.Construct, o.Status, o.Pos, o.Detail)
+		}
+	}
+
+	// ---- R6: keys leave the store only through deletes that produce an event, or through a compaction that keeps the
+	// deletion marker until what it hides is gone (C07-R3/R4) and expires nothing but event keys (C17-R1/R2) ----
+	{
+		sub7 := p.subResult("C07", tier)
+		for _, o := range sub7.Obls {
+			if o.Rule == "C07-R3" || o.Rule == "C07-R4" {
+				res.add("C06-R6", o.Rule+" "+o.Construct, o.Status, o.Pos, o.Detail)
+			}
+		}
+		sub17 := p.subResult("C17", tier)
+		for _, o := range sub17.Obls {
+			if o.Rule == "C17-R1" || o.Rule == "C17-R2" {
+				res.add("C06-R6", o.Rule+" "+o.Construct, o.Status, o.Pos, o.Detail)
+			}
 		}
 	}
 
